@@ -166,6 +166,83 @@ Compile(t) ==
          IN Compile(t.l) \o << [i |-> "jsc", op |-> t.op, off |-> Len(cr) + 1] >> \o cr \o << [i |-> "chkbool"] >>
   ELSE Compile(t.l) \o Compile(t.r) \o << [i |-> "bin", op |-> t.op] >>
 
+(* ------------------------------ IEEE facet: lowering to primitive code ------------------------------
+   TLA+ integers cannot state IEEE-754 doubles, but the MEANING of every operator can be stated once, as
+   a sequence of primitive operations whose IEEE behaviour is not in question (+ - * / floor, < > <= >=,
+   == on two doubles).  CompileI(tree) is that lowering for trees whose numeric leaves are SLOTS (values
+   supplied later).  It is bound to the exact-rational semantics above by TLC: LoweringAgrees says that the
+   lowered code, run over exact rationals (RunP), yields Ev(tree) for every tree of families A and B.  The
+   harness runs the same lowered code over float64 - including 0.1, 1e308, 5e-324, -0, Inf, NaN - which
+   gives the documented value "a - floor(a/b)*b in IEEE-754 double arithmetic" without the harness knowing
+   what % or | or 不小于 mean. *)
+Slot(id) == [k |-> "slot", id |-> id]
+Lower(op) ==
+  CASE op = "add" -> <<"chknum2", "fadd">>
+    [] op = "sub" -> <<"chknum2", "fsub">>
+    [] op = "mul" -> <<"chknum2", "fmul">>
+    [] op = "div" -> <<"chknum2", "chkz", "fdiv">>
+    [] op = "idiv" -> <<"chknum2", "chkz", "fdiv", "floor">>
+    [] op = "mod" -> <<"chknum2", "chkz", "dup2", "fdiv", "floor", "swapmul", "fsub">>   \* a - floor(a/b)*b
+    [] op = "lt" -> <<"chknum2", "flt">>
+    [] op = "gt" -> <<"chknum2", "fgt">>
+    [] op = "le" -> <<"chknum2", "fle">>
+    [] op = "ge" -> <<"chknum2", "fge">>
+    [] op \in {"eq", "xeq"} -> <<"veq">>
+    [] op \in {"neq", "xneq"} -> <<"veq", "not">>
+RECURSIVE CompileI(_)
+CompileI(t) ==
+  IF t.k = "leaf" THEN << [i |-> "push", v |-> t.v] >>
+  ELSE IF t.k = "slot" THEN << [i |-> "slot", id |-> t.id] >>
+  ELSE IF t.k = "probe" THEN << [i |-> "probe", id |-> t.id, v |-> t.v] >>
+  ELSE IF t.op \in LogOps THEN
+         LET cr == CompileI(t.r)
+         IN CompileI(t.l) \o << [i |-> "jsc", op |-> t.op, off |-> Len(cr) + 1] >> \o cr \o << [i |-> "chkbool"] >>
+  ELSE CompileI(t.l) \o CompileI(t.r) \o [j \in 1..Len(Lower(t.op)) |-> [i |-> "prim", p |-> Lower(t.op)[j]]]
+
+\* the primitive code run over EXACT RATIONALS: result value, Err or Big
+RECURSIVE RunP(_, _, _, _)
+RunP(cd, env, q, stk) ==
+  IF q > Len(cd) THEN stk[Len(stk)]
+  ELSE LET ins == cd[q]
+           n == Len(stk)
+           a == IF n >= 2 THEN stk[n - 1] ELSE Null
+           b == IF n >= 1 THEN stk[n] ELSE Null
+           Drop2 == SubSeq(stk, 1, n - 2)
+           Drop1 == SubSeq(stk, 1, n - 1)
+       IN IF ins.i = "push" \/ ins.i = "probe" THEN RunP(cd, env, q + 1, Append(stk, ins.v))
+          ELSE IF ins.i = "slot" THEN RunP(cd, env, q + 1, Append(stk, env[ins.id]))
+          ELSE IF ins.i = "jsc" THEN
+                 IF b.t # "bool" THEN Err
+                 ELSE IF (ins.op = "and" /\ ~b.b) \/ (ins.op = "or" /\ b.b) THEN RunP(cd, env, q + ins.off + 1, stk)
+                 ELSE RunP(cd, env, q + 1, Drop1)
+          ELSE IF ins.i = "chkbool" THEN (IF b.t # "bool" THEN Err ELSE RunP(cd, env, q + 1, stk))
+          ELSE \* primitive
+            CASE ins.p = "chknum2" -> IF a.t # "num" \/ b.t # "num" THEN Err
+                                      ELSE IF ~Small(a) \/ ~Small(b) THEN Big ELSE RunP(cd, env, q + 1, stk)
+              [] ins.p = "chkz" -> IF b.n = 0 THEN Err ELSE RunP(cd, env, q + 1, stk)
+              [] ins.p = "dup2" -> RunP(cd, env, q + 1, stk \o <<a, b>>)
+              [] ins.p = "fadd" -> RunP(cd, env, q + 1, Append(Drop2, QAdd(a, b)))
+              [] ins.p = "fsub" -> RunP(cd, env, q + 1, Append(Drop2, QSub(a, b)))
+              [] ins.p = "fmul" -> RunP(cd, env, q + 1, Append(Drop2, QMul(a, b)))
+              [] ins.p = "swapmul" -> IF ~Small(b) THEN Big ELSE RunP(cd, env, q + 1, Append(Drop2, QMul(b, a)))   \* [b, f] -> f*b
+              [] ins.p = "fdiv" -> RunP(cd, env, q + 1, Append(Drop2, QDiv(a, b)))
+              [] ins.p = "floor" -> RunP(cd, env, q + 1, Append(Drop1, Num(QFloor(b), 1)))
+              [] ins.p = "flt" -> RunP(cd, env, q + 1, Append(Drop2, Bool(QLt(a, b))))
+              [] ins.p = "fgt" -> RunP(cd, env, q + 1, Append(Drop2, Bool(QLt(b, a))))
+              [] ins.p = "fle" -> RunP(cd, env, q + 1, Append(Drop2, Bool(QLt(a, b) \/ QEq(a, b))))
+              [] ins.p = "fge" -> RunP(cd, env, q + 1, Append(Drop2, Bool(QLt(b, a) \/ QEq(a, b))))
+              [] ins.p = "veq" -> RunP(cd, env, q + 1, Append(Drop2, Bool(VEq(a, b))))
+              [] ins.p = "not" -> RunP(cd, env, q + 1, Append(Drop1, Bool(~b.b)))
+
+\* abstraction: numeric leaves become slots (numbered left to right), the environment remembers their values
+RECURSIVE Abstr(_, _)
+Abstr(t, n) ==      \* -> [t |-> slot tree, env |-> sequence of values, n |-> next slot number]
+  IF t.k = "leaf" /\ t.v.t = "num" THEN [t |-> Slot(n), env |-> <<t.v>>, n |-> n + 1]
+  ELSE IF t.k # "bin" THEN [t |-> t, env |-> <<>>, n |-> n]
+  ELSE LET L == Abstr(t.l, n)
+           R == Abstr(t.r, L.n)
+       IN [t |-> Bin(t.op, L.t, R.t), env |-> L.env \o R.env, n |-> R.n]
+
 (* ------------------------------ minimal-brace rendering ------------------------------ *)
 Tok(k, v) == [k |-> k, v |-> v]
 RECURSIVE MinText(_)
@@ -181,6 +258,7 @@ Wrap(parent, child, side) ==
 MinText(t) ==
   IF t.k = "leaf" THEN << [k |-> "leaf", v |-> t.v] >>
   ELSE IF t.k = "probe" THEN << [k |-> "probe", id |-> t.id] >>
+  ELSE IF t.k = "slot" THEN << [k |-> "slot", id |-> t.id] >>
   ELSE Wrap(t, t.l, "l") \o << [k |-> "op", op |-> t.op] >> \o Wrap(t, t.r, "r")
 
 (* ------------------------------ the machine ------------------------------ *)
@@ -253,6 +331,19 @@ StackShape == outcome = "run" => (pc \in 1..Len(code) + 1 /\ Len(stack) <= Len(c
 \* stated on Ev: a probe in the right operand of a decided and/or does not appear in ord (by construction
 \* of Ev) and the machine agrees with Ev, see AgreesWithReference.
 
+\* the IEEE lowering, run over exact rationals, is the reference semantics (binds CompileI to Ev)
+LoweringAgrees ==
+  Terminal =>
+    LET A == Abstr(tree, 1)
+        r == RunP(CompileI(A.t), A.env, 1, <<>>)
+    IN IF Ref.v.t = "big" \/ r.t = "big" THEN TRUE        \* magnitude guard of the integer encoding, either side
+       ELSE r = Ref.v
+\* family I: slot trees and their lowered code (no values: the harness supplies doubles)
+FamIA == {Bin(op, Slot(1), Slot(2)) : op \in ArithOps \cup CmpOps}
+RECURSIVE SlotTree(_)
+SlotTree(t) == Abstr(t, 1).t
+FamIB == {SlotTree(TreeB(o1, o2, o3, sh, 1)) : o1 \in Ops, o2 \in Ops, o3 \in Ops, sh \in Shapes}
+EmitI == \A t \in FamIA \cup FamIB : PrintT(ToJson([k |-> "iexpr", mt |-> MinText(t), code |-> CompileI(t)]))
 ValJ(v) == v
 Emit == Terminal =>
   PrintT(ToJson([k |-> "expr", tree |-> tree, mt |-> MinText(tree),
